@@ -75,3 +75,57 @@ pub fn in_place_on_temporary_ok<F: ark_ff::Field>(x: &mut F) -> Option<&mut F> {
     *x = t;
     Some(x)
 }
+
+/// R-ITEROVERRIDE (C07 / C15): an overridden `Iterator::nth` has to agree with n + 1 calls of `next`, also on an iterator
+/// that has already been advanced.  Positive example: the end guard ignores the current position.
+pub struct CountUp {
+    pub cur: u64,
+    pub end: u64,
+}
+
+impl Iterator for CountUp {
+    type Item = u64;
+    fn next(&mut self) -> Option<u64> {
+        if self.cur == self.end {
+            None
+        } else {
+            let c = self.cur;
+            self.cur += 1;
+            Some(c)
+        }
+    }
+    fn nth(&mut self, n: usize) -> Option<u64> {
+        if n as u64 >= self.end {
+            return None;
+        }
+        self.cur += n as u64;
+        self.next()
+    }
+}
+
+/// R-ITEROVERRIDE twin (must NOT match): the guard counts the remaining items and an overshoot exhausts the iterator.
+pub struct CountUpOk {
+    pub cur: u64,
+    pub end: u64,
+}
+
+impl Iterator for CountUpOk {
+    type Item = u64;
+    fn next(&mut self) -> Option<u64> {
+        if self.cur == self.end {
+            None
+        } else {
+            let c = self.cur;
+            self.cur += 1;
+            Some(c)
+        }
+    }
+    fn nth(&mut self, n: usize) -> Option<u64> {
+        if n as u64 >= self.end - self.cur {
+            self.cur = self.end;
+            return None;
+        }
+        self.cur += n as u64;
+        self.next()
+    }
+}
